@@ -149,14 +149,21 @@ func (w *world) snapData() []byte {
 	}
 }
 
-// genMutation draws one Raft-valid mutation for scope si from the tape.
-func (w *world) genMutation(si int) *mutation {
+// genMutation draws one Raft-valid mutation for scope si from the tape. With
+// noSnap no snapshot-writing mutation is produced: publishSnapshotAndCommit
+// holds DB.snapshotLifecycleMu (a sync.Mutex) across the group commit, so a
+// second snapshot writer in the same step would block non-durably and the
+// bubble's fake clock (the batch timer) could never advance.
+func (w *world) genMutation(si int, noSnap bool) *mutation {
 	tp := w.r.Tape
 	ref := w.refs[si]
 	hs := ref.hs()
 	first, last, snapIdx := ref.first(), ref.last(), ref.snapIndex()
 	_ = first
 	kind := tp.Weighted([]int{10, 3, 4, w.cfg.WOverwrite, w.cfg.WCompact, w.cfg.WInstall, 1, w.cfg.WReplace, 1})
+	if noSnap && (kind == 4 || kind == 5 || kind == 7) {
+		kind = 0
+	}
 	curTerm := max(hs.Term, ref.lastTerm(), 1)
 	vote := func(term uint64) uint64 {
 		if term == hs.Term && hs.Vote != 0 {
